@@ -56,6 +56,27 @@ Definition num_float_valid_syntax (text : str) : bool :=
   | Some (mantissa, exponent) =>
       let exponent :=
         match num_strip_prefix_p num_is_sign exponent with Some r => r | None => exponent end in
+      if num_is_empty exponent || negb (forallb is_digit (utf8_bytes exponent)) then false
+      else
+        match split_once c_dot mantissa with
+        | Some (int, fract) => num_float_valid_fractional int fract
+        | None => num_int_valid_syntax mantissa
+        end
+  | None =>
+      match split_once c_dot text with
+      | Some (int, fract) => num_float_valid_fractional int fract
+      | None => false
+      end
+  end.
+
+(* FloatValue::valid_syntax as it was before commit c6646f2 ("fix: FloatValue syntax check rejects an
+   exponent without digits", DESIGN.md D8): no emptiness test on the exponent.  Kept only for the
+   witness lemmas C10_float_old_refuted; not extracted, not tied. *)
+Definition num_float_valid_syntax_old (text : str) : bool :=
+  match num_split_once_p num_is_e text with
+  | Some (mantissa, exponent) =>
+      let exponent :=
+        match num_strip_prefix_p num_is_sign exponent with Some r => r | None => exponent end in
       if negb (forallb is_digit (utf8_bytes exponent)) then false
       else
         match split_once c_dot mantissa with
@@ -166,7 +187,7 @@ Inductive SpecFloatValue : str -> Prop :=
 | SFV_if i f : SpecIntegerPart i -> SpecFractionalPart f -> SpecFloatValue (i ++ f)
 | SFV_ie i e : SpecIntegerPart i -> SpecExponentPart e -> SpecFloatValue (i ++ e).
 
-(* the known defect class D8: there is an exponent indicator and no digit follows the optional sign *)
+(* the class of defect D8 (fixed by c6646f2): there is an exponent indicator and no digit follows the optional sign *)
 Definition num_empty_exponent_digits (text : str) : bool :=
   match num_split_once_p num_is_e text with
   | Some (_, exponent) =>
